@@ -62,6 +62,14 @@ pub open spec fn u64_text_value(cs: Seq<char>) -> Option<int> {
     let ds = if cs.len() > 0 && cs[0] == '+' { cs.skip(1) } else { cs };
     if ds.len() >= 1 && all_digits(ds) && dec_value(ds) <= u64::MAX { Some(dec_value(ds)) } else { None }
 }
+pub proof fn lemma_int_text_u64(n: u64)
+    ensures u64_text_value(int_text(n as int)) == Some(n as int), is_ascii_chars(int_text(n as int))
+{
+    lemma_dec_text(n as nat);
+    let t = int_text(n as int);
+    assert(t[0] != '+') by { assert(is_digit(t[0])); }
+}
+
 // shim D6.u64_from_str
 #[verifier::external_body]
 fn shim_parse_u64(s: &str) -> (r: core::result::Result<u64, std::num::ParseIntError>)
